@@ -22,8 +22,8 @@ pub const N_ADDR: u8 = 6;
 pub const N_ADDR_ALL: u8 = 8;
 /// valid hook addresses
 pub const N_HOOK: u8 = 4;
-/// index N_HOOK is an invalid address string
-pub const N_HOOK_ALL: u8 = 5;
+/// index N_HOOK is an invalid address string, N_HOOK + 1 the upper-case spelling of hook 2's address
+pub const N_HOOK_ALL: u8 = 6;
 
 const STAKE_DENOM: &str = "ustake";
 const OTHER_DENOM: &str = "uother";
@@ -156,7 +156,7 @@ fn wt() -> BoxedStrategy<Wt> {
 }
 
 fn hook_ix() -> BoxedStrategy<u8> {
-    prop_oneof![30 => 0u8..N_HOOK, 1 => N_HOOK..N_HOOK_ALL].boxed()
+    prop_oneof![30 => 0u8..N_HOOK, 2 => N_HOOK..N_HOOK_ALL].boxed()
 }
 
 fn hook_sel() -> BoxedStrategy<HookSel> {
@@ -234,7 +234,8 @@ fn stake_op(prop: &str) -> BoxedStrategy<Op> {
 }
 
 fn blocks(op: BoxedStrategy<Op>, max_blocks: usize, max_ops: usize) -> BoxedStrategy<Vec<Block>> {
-    let gap = prop_oneof![1 => Just(0u8), 12 => 1u8..=5];
+    // 255 stands for a very long pause (1 000 003 blocks)
+    let gap = prop_oneof![3 => Just(0u8), 36 => 1u8..=5, 1 => Just(255u8)];
     let block = (gap, proptest::collection::vec(op, 0..=max_ops)).prop_map(|(gap, ops)| Block { gap, ops });
     proptest::collection::vec(block, 0..=max_blocks).boxed()
 }
@@ -333,6 +334,9 @@ impl World {
         // e.g. try to unsubscribe itself); the others are separate addresses
         let mut hook_strs: Vec<String> = (0..N_HOOK).map(|i| if i < 2 { addrs[i as usize].to_string() } else { d.api.addr_make(&format!("hook{i}")).to_string() }).collect();
         hook_strs.push("not-a-hook-address".to_string());
+        // another spelling of hook 2's address: not a normalised address, so it can never be registered
+        let upper = hook_strs[2].to_uppercase();
+        hook_strs.push(upper);
         World { d, stake, addrs, addr_strs, hook_strs }
     }
 
@@ -534,7 +538,28 @@ fn check_c09_heights(
     // "for every h from before instantiation into the future": besides the window around the history, the far
     // ends of the range whenever the window reaches past the present (i.e. the open block is complete)
     let far: Vec<u64> = if *heights.end() > w.d.height { vec![0, 1, u64::MAX - 1, u64::MAX] } else { vec![] };
-    for h in heights.chain(far.into_iter()) {
+    // a window that spans a very long pause is sampled: both ends, the neighbourhood of every block of the
+    // history, and points deep inside each long gap
+    let (lo, hi) = (*heights.start(), *heights.end());
+    let window: Vec<u64> = if hi.saturating_sub(lo) <= 400 {
+        heights.collect()
+    } else {
+        let mut s: BTreeSet<u64> = (lo..=lo + 8).chain(hi.saturating_sub(6)..=hi).collect();
+        let mut prev: Option<u64> = None;
+        for (bh, _) in hist {
+            for d in 0..=3u64 {
+                s.insert(bh.saturating_sub(1) + d);
+            }
+            if let Some(p) = prev {
+                if bh - p > 8 {
+                    s.extend([p + (bh - p) / 2, p + 1_000_000, bh.saturating_sub(1_000_000), bh.saturating_sub(2)]);
+                }
+            }
+            prev = Some(*bh);
+        }
+        s.into_iter().filter(|h| *h >= lo && *h <= hi).collect()
+    };
+    for h in window.into_iter().chain(far.into_iter()) {
         let st = state_before(hist, h);
         for a in w.addr_strs.iter().take(N_ADDR as usize) {
             let got = w.member(a, Some(h)).map_err(qerr)?;
@@ -573,6 +598,7 @@ fn check_c14_step(
     w: &World,
     sender: &str,
     touched: &BTreeSet<String>,
+    added: &BTreeSet<String>,
     ok: bool,
     resp: Option<&Response>,
     pre: &Obs,
@@ -602,6 +628,13 @@ fn check_c14_step(
     }
     if pre.admin.is_none() {
         ctx.flag("attempt_while_frozen");
+    }
+    // a registered hook is a contract address in its one normalised spelling (another spelling of a
+    // registered address would be the same contract heard twice)
+    for h in &post.hooks {
+        if !w.hook_strs.iter().take(N_HOOK as usize).any(|x| x == h) {
+            return Err(v(prop, "hook-not-a-normalised-address", format!("{at}: the hook list contains {h}, which is not a normalised address (hooks {:?})", post.hooks)));
+        }
     }
 
     // ---- notifications
@@ -649,6 +682,11 @@ fn check_c14_step(
             let is = post.members.get(k).copied();
             if *last != is {
                 return Err(v(prop, "diff-untruthful", format!("{at}: notification to {contract_addr} says {k} has weight {:?} after the call, it has {:?}; diffs {:?}", last, is, hook_msg.diffs)));
+            }
+        }
+        for k in added {
+            if !chain.contains_key(k) {
+                return Err(v(prop, "diff-missing-touched", format!("{at}: {k} is in the add list of this call but the notification to {contract_addr} has no entry for it; diffs {:?}", hook_msg.diffs)));
             }
         }
         for k in &changed {
@@ -765,13 +803,17 @@ pub fn run_case(prop: &str, case: &Case, ctx: &mut CaseCtx) -> Result<(), Violat
                 check_c09_heights(&w, &hist, h_lo..=w.d.height + 2, &format!("end of block {} (before block #{bno})", w.d.height), ctx)?;
                 ctx.count("blocks_closed");
             }
-            w.d.advance(blk.gap as u64, 5 * blk.gap as u64);
+            let gap: u64 = if blk.gap == 255 { 1_000_003 } else { blk.gap as u64 };
+            w.d.advance(gap, 5 * gap);
             changes_in_block.clear();
         }
         for op in &blk.ops {
             step_no += 1;
             // ---------- resolve the op against the current state
             let mut touched: BTreeSet<String> = BTreeSet::new();
+            // addresses an UpdateMembers call writes in any case (its add list): they are reported even when
+            // the weight written is the one the member already had
+            let mut added: BTreeSet<String> = BTreeSet::new();
             let mut funds: Vec<Coin> = vec![];
             let mut overlap: Vec<String> = vec![];
             let (kind, sender_ix, x): (&'static str, usize, X) = match op {
@@ -794,6 +836,7 @@ pub fn run_case(prop: &str, case: &Case, ctx: &mut CaseCtx) -> Result<(), Violat
                     let remove: Vec<String> = remove.iter().map(|i| w.addr_str(*i)).collect();
                     for m in &add {
                         touched.insert(m.addr.clone());
+                        added.insert(m.addr.clone());
                         if remove.contains(&m.addr) {
                             overlap.push(m.addr.clone());
                         }
@@ -995,7 +1038,7 @@ pub fn run_case(prop: &str, case: &Case, ctx: &mut CaseCtx) -> Result<(), Violat
                     }
                 }
                 "C14" => {
-                    let changed = check_c14_step(&w, sender.as_str(), &touched, ok, res.as_ref().ok(), &pre, &post, &hooks_pre, &at, ctx)?;
+                    let changed = check_c14_step(&w, sender.as_str(), &touched, &added, ok, res.as_ref().ok(), &pre, &post, &hooks_pre, &at, ctx)?;
                     if post.hooks != model_hooks {
                         return Err(v(prop, "hooks-ne-model", format!("{at}: Hooks reports {:?}; the successful AddHook/RemoveHook calls give {:?}", post.hooks, model_hooks)));
                     }
@@ -1152,8 +1195,9 @@ fn d_wt(u: &mut arbitrary::Unstructured) -> Wt {
 }
 /// `hook_ix`
 fn d_hook(u: &mut arbitrary::Unstructured) -> u8 {
-    match arb_below(u, 31) {
+    match arb_below(u, 32) {
         30 => N_HOOK,
+        31 => N_HOOK + 1,
         r => (r % N_HOOK as usize) as u8,
     }
 }
@@ -1256,7 +1300,11 @@ fn d_blocks(u: &mut arbitrary::Unstructured, prop: &str, group: bool) -> Vec<Blo
     let n_blocks = arb_below(u, max_blocks + 1);
     let mut blocks = vec![];
     for _ in 0..n_blocks {
-        let gap = if d_arm(u, &[1, 12]) == 0 { 0 } else { 1 + arb_below(u, 5) as u8 };
+        let gap = match d_arm(u, &[3, 36, 1]) {
+            0 => 0,
+            1 => 1 + arb_below(u, 5) as u8,
+            _ => 255,
+        };
         let n = arb_below(u, max_ops + 1);
         let ops = (0..n).map(|_| if group { d_group_op(u, prop) } else { d_stake_op(u, prop) }).collect();
         blocks.push(Block { gap, ops });
